@@ -63,7 +63,7 @@ StepQ(op, args, ret)    == Step(op, args, ret, a, b, bl, it)
 
 NoIter  == it = NIL                    \* program discipline: nothing is mutated while an iterator over A is alive
 NOBOUND == 100000                      \* BDepth >= NOBOUND: no bound (trace validation; Diff is not evaluated)
-Room    == bl => (BDepth >= NOBOUND \/ Diff(a, b) < BDepth)   \* model bound on how far the two copies drift apart
+Room    == bl => (IF BDepth >= NOBOUND THEN TRUE ELSE Diff(a, b) < BDepth)   \* model bound on how far the two copies drift apart
 CanMutA == NoIter /\ Room
 CanMutB == NoIter /\ bl /\ Room
 
